@@ -242,9 +242,8 @@ Theorem C08_nt_cwd_pwd : forall users ui u, nth_error users ui = Some u ->
            = POk (t_of "257") info rest
          /\ rest = split_lines k /\ parse_directory_response (last info []) = mkp 1 P) /\
       target (s_cwd (w_s w3)) (mkp 1 P) = P /\
-      (* the text Model/Session.v records for the 257 reply (quotes NOT doubled there) is the reply
-         of Model/Names.v whenever the directory string has no double quote *)
-      (noquote (to_str (mkp 1 P)) -> o_info o3 = pwd_info (mkp 1 P)).
+      (* the text Model/Session.v records for the 257 reply is the reply of Model/Names.v (quotes doubled) *)
+      o_info o3 = pwd_info (mkp 1 P).
 Proof. exact nt_cwd_pwd. Qed.
 Print Assumptions C08_nt_cwd_pwd.
 
